@@ -18,3 +18,5 @@ pub assume_specification<T, E, F, O: FnOnce(E) -> core::result::Result<T, F>> [c
     requires r matches Err(e) ==> op.requires((e,)),
     ensures r matches Ok(v) ==> res == core::result::Result::<T, F>::Ok(v),
             r matches Err(e) ==> op.ensures((e,), res);
+pub assume_specification [i64::saturating_add] (a: i64, b: i64) -> (r: i64)
+    ensures r == (if a + b > i64::MAX { i64::MAX as int } else if a + b < i64::MIN { i64::MIN as int } else { a + b });
